@@ -177,5 +177,6 @@ def check(ctx):
     c17.check_B4(ctx, facts)
     c17.check_B5(ctx, facts)
     c17.check_B8(ctx, facts, rule='C07.R4')
+    c17.check_B7(ctx, facts)        # the keyspace list a restart rebuilds from is the persistent registry, which only grows
     for o in ctx.obs[n0:]:
         o.rule = 'C07.R4'
